@@ -2,9 +2,33 @@
    entry point with its command line / string / object) together with what the real parser returned:
    the value of every declared key in declaration order and whether any other (non-meta) key was
    left in the result, or None when the call raised. *)
-From JV Require Import Lib.Base Lib.C04Base Model.C04Sources Spec.C04Spec Model.C04Wf.
+From JV Require Import Lib.Base Lib.C04Base Model.C04Sources Model.C04Sub Spec.C04Spec Model.C04Wf.
 
-Record case := { k_call : call; k_obs : option (list val * bool) }.
+(* k_sub = Some (NAME, the subcommand's declarations, its environment variables, the items after the token):
+   the call is parse_args(items of k_call ++ [NAME] ++ those items); observed are the parent's keys, then
+   the subcommand's keys NAME.key. *)
+Record case := { k_call : call;
+                 k_sub : option (name * parser * list (tpath * val) * list arg);
+                 k_obs : option (list val * bool) }.
+
+Definition scall_of (c : call) (s : name * parser * list (tpath * val) * list arg) : scall :=
+  let '(nm, ps, env, argv) := s in
+  {| s_parent := c; s_name := nm; s_sub := ps; s_subenv := env; s_subargv := argv |}.
+
+Definition agree_model_sub (sc : scall) (obs : option (list val * bool)) : bool :=
+  let p := all_decls sc in
+  match pipeline_sub sc, obs with
+  | Ok t, Some (vals, extra) =>
+      list_eqb val_eqb (observe_values p t) vals && Bool.eqb (observe_extra p t) extra
+  | Unrecognized, None => true
+  | _, _ => false
+  end.
+
+Definition agree_spec_sub (sc : scall) (obs : option (list val * bool)) : bool :=
+  match obs with
+  | Some (vals, extra) => list_eqb val_eqb (final_values_sub sc) vals && negb extra
+  | None => negb (wf_scall sc)
+  end.
 
 Definition agree_model (c : case) : bool :=
   let p := c_parser (k_call c) in
@@ -24,8 +48,16 @@ Definition agree_spec (c : case) : bool :=
   end.
 
 Definition judge1 (c : case) : verdict :=
-  {| v_model := agree_model c;
-     v_class := call_class (k_call c);
-     v_spec := agree_spec c |}.
+  match k_sub c with
+  | None =>
+      {| v_model := agree_model c;
+         v_class := call_class (k_call c);
+         v_spec := agree_spec c |}
+  | Some s =>
+      let sc := scall_of (k_call c) s in
+      {| v_model := agree_model_sub sc (k_obs c);
+         v_class := scall_class sc;
+         v_spec := agree_spec_sub sc (k_obs c) |}
+  end.
 
 Definition judge (cs : list case) := judge_all judge1 cs.
